@@ -36,6 +36,7 @@ pub fn get(prop: &str, tier: &str) -> Option<Check> {
             prop: "C01",
             rule_text: "each run: random unit map + handler memory with exception maps, 1-3 connections, 1-12 request frames each from the C01 grammar (valid/boundary/mutated/unknown-fc/raw/maximal PDUs), delivered under a random chunking and interleaving with decode-level changes mid-stream; reply byte stream compared byte-for-byte with model::server at every quiescent point. Non-trivial = at least one complete frame reached the oracle; distinct = hash of (decode level, all frames and destinations).",
             batches: vec![
+                Batch { name: "mbap_chunking_server_faults", f: scen::server_tcp::run_chunking, cfg: cfg(Mode::LockStep, true, 0), runs: n(20_000, 500_000), real: REAL_SERVER_TCP, stub: STUB_SERVER_TCP },
                 Batch { name: "server_tcp_model", f: scen::server_tcp::run_model, cfg: cfg(Mode::LockStep, false, 0), runs: n(60_000, 1_500_000), real: REAL_SERVER_TCP, stub: STUB_SERVER_TCP },
                 Batch { name: "server_tcp_model_faults", f: scen::server_tcp::run_model, cfg: cfg(Mode::LockStep, true, 0), runs: n(20_000, 500_000), real: REAL_SERVER_TCP, stub: STUB_SERVER_TCP },
                 Batch { name: "rtu_server_model", f: scen::rtu::run_server_model, cfg: cfg(Mode::LockStep, false, 0), runs: n(40_000, 1_000_000), real: REAL_SERVER_RTU, stub: STUB_SERVER_RTU },
